@@ -4,7 +4,13 @@
 pub use refmodel::*;
 pub use vengine::*;
 
+pub mod casts;
+pub mod fmt_table;
+pub mod fmtcheck;
+pub mod matrix;
 pub mod plans;
+pub mod strapi;
+pub mod strings;
 pub mod tables;
 
 /// Invoke a macro once per digit family: $m!(module, BUintX, BIntX, digit type)
@@ -35,8 +41,10 @@ macro_rules! core_configs {
         $m!($run, d64, 1, BigRef);
         $m!($run, d64, 2, BigRef);
         $m!($run, d64, 3, BigRef);
+        // N = 4: the first digit count with two quotient digits above a two-digit divisor
+        $m!($run, d8, 4, i128);
+        $m!($run, d64, 4, BigRef);
         if $run.tier == Tier::Thorough {
-            $m!($run, d8, 4, i128);
             $m!($run, d8, 5, BigRef);
             $m!($run, d8, 8, BigRef);
             $m!($run, d8, 17, BigRef);
@@ -47,7 +55,6 @@ macro_rules! core_configs {
             $m!($run, d32, 4, BigRef);
             $m!($run, d32, 5, BigRef);
             $m!($run, d32, 10, BigRef);
-            $m!($run, d64, 4, BigRef);
             $m!($run, d64, 5, BigRef);
             $m!($run, d64, 8, BigRef);
             $m!($run, d64, 16, BigRef);
